@@ -194,6 +194,13 @@ def to_val(v):
         return T.Val.VL(v.z)
     if isinstance(v, VFunc) and v.tag == 'role':
         return T.Val.VF(v.payload[1])
+    if isinstance(v, VFunc) and v.tag == 'lambda':
+        # a closure created by the code: a function object of its own (identity: one fresh id per creation site and path)
+        import z3
+        if not hasattr(v, '_fid'):
+            _lam_counter[0] += 1
+            v._fid = z3.Int('lambda_fn!%d' % _lam_counter[0])
+        return T.Val.VF(v._fid)
     if isinstance(v, VTuple):
         return tuple_val(v)
     if isinstance(v, VClassSym):
@@ -203,6 +210,9 @@ def to_val(v):
 
 class Untranslated(Exception):
     pass
+
+
+_lam_counter = [0]
 
 
 _tuple_fn = {}
